@@ -93,7 +93,7 @@ var keywordSpec = map[string]string{
 var parserUnwrittenOK = map[string]string{}
 
 func runC02(c *core.Ctx) {
-	c.Explanation = "Structural necessary conditions of grammar-conformant parsing, decided by constant extraction and dominance on the SSA of parser/lexer/token: (prec.table) the compiled-in precedence map assigns every operator token to the binding-power class the property states, and the class constants are strictly ordered OR < AND < REGEX < EQUALS < LESS_GREATER < CONCAT < PREFIX (relations are compared, not numbers); (prec.pratt) ParseExpression continues its loop on the strict comparison `precedence < peekPrecedence()` with the caller's power on the smaller side (left associativity), curPrecedence/peekPrecedence index the table with the current/peek token, and every call of ParseExpression passes LOWEST, except ParsePrefixExpression (PREFIX) and the two infix parsers (the operator's own power taken before the token is advanced); (prec.register) the prefix/infix/postfix tables map each token to the parser function the grammar requires, explicit `+` is the only explicit concatenation, and every token with a binding power has a handler; (lex.operators) each operator spelling reaches newToken with its own token type (case chains on l.char/peekChar); (lex.keywords) keyword spellings map to their token constants; (dispatch) Parse/ParseStatement dispatch each first token to its parser, ParseSnippetVCL agrees with ParseStatement wherever both dispatch; (fields) every semantic field of every node kind the parser builds is stored somewhere in the parser; (escape) escape decoding is reachable only from ParseString under the double-quote test. The token-advance test of the infix parsers is may-precede (an advance on any path to the read spoils it); escape decoding depends on the double-quote test and at most on a `contains %` test; (dup.case) the duplicate-case rejection depends on both operator and label; (lex.step) every path around a scanning loop of the lexer consumes exactly one character, so each character is examined as the possible start of the terminator; (escape.bytes) no byte of the source text is converted to a string by code point (string(b) re-encodes bytes >= 0x80 as two bytes) unless constant or bounded below 0x80."
+	c.Explanation = "Structural necessary conditions of grammar-conformant parsing, decided by constant extraction and dominance on the SSA of parser/lexer/token: (prec.table) the compiled-in precedence map assigns every operator token to the binding-power class the property states, and the class constants are strictly ordered OR < AND < REGEX < EQUALS < LESS_GREATER < CONCAT < PREFIX (relations are compared, not numbers); (prec.pratt) ParseExpression continues its loop on the strict comparison `precedence < peekPrecedence()` with the caller's power on the smaller side (left associativity), curPrecedence/peekPrecedence index the table with the current/peek token, and every call of ParseExpression passes LOWEST, except ParsePrefixExpression (PREFIX) and the two infix parsers (the operator's own power taken before the token is advanced); (prec.register) the prefix/infix/postfix tables map each token to the parser function the grammar requires, explicit `+` is the only explicit concatenation, and every token with a binding power has a handler; (lex.operators) each operator spelling reaches newToken with its own token type (case chains on l.char/peekChar); (lex.keywords) keyword spellings map to their token constants; (dispatch) Parse/ParseStatement dispatch each first token to its parser, ParseSnippetVCL agrees with ParseStatement wherever both dispatch; (fields) every semantic field of every node kind the parser builds is stored somewhere in the parser; (escape) escape decoding is reachable only from ParseString under the double-quote test. The token-advance test of the infix parsers is may-precede (an advance on any path to the read spoils it); escape decoding depends on the double-quote test and at most on a `contains %` test; (dup.case) the duplicate-case rejection depends on both operator and label; (lex.step) every path around a scanning loop of the lexer consumes exactly one character, so each character is examined as the possible start of the terminator; (escape.bytes) no byte of the source text is converted to a string by code point (string(b) re-encodes bytes >= 0x80 as two bytes) unless constant or bounded below 0x80. (escape.scratch) a helper that appends to a buffer parameter and reads its whole content is not handed a buffer that outlives the call without a reset."
 	c.NotCovered = []string{"literal values (strconv results, RTIME suffix arithmetic, escape decoding results)", "operand order inside a node and 'exactly once, in source order' as value properties", "whitespace/comment placement handled by the lexer between tokens"}
 	prog := c.Prog
 	pp, tp := prog.Pkg("parser"), prog.Pkg("token")
